@@ -208,8 +208,48 @@ example : NarrowTable narrowExample := by
   simp only [NarrowTable, AllNarrow, NarrowChar]
   decide
 
+/-- the environment of the boundary case: a terminal 5 columns wide -/
+def envW5 : Pretty.Env := { cfg := { minBuf := 4, maxBuf := 8 }, term := some (5, 10) }
+
+/-- **C16_no_data_narrow_counterexample.**  Hypothesis `hw` of `C16_table_lines_ok` cannot be dropped:
+the empty table satisfies every other hypothesis (`term = some (5, 10)`, `2 ≤ 10`, distinct columns,
+narrow), `formatAggregate` succeeds, and its output `No data\n` is NOT a frame of lines fitting 5 columns. -/
+theorem C16_no_data_narrow_counterexample :
+    let t : Table := { columns := [], rows := [] }
+    envW5.term = some (5, 10) ∧ t.columns.Nodup ∧ NarrowTable t ∧
+    Pretty.formatAggregate envW5 {} t = .ok (['N', 'o', ' ', 'd', 'a', 't', 'a', '\n'], {}) ∧
+    ¬ ∃ ls, ['N', 'o', ' ', 'd', 'a', 't', 'a', '\n'] = frameText ls ∧ FrameOK 5 9 ls := by
+  refine ⟨rfl, List.nodup_nil, ⟨by simp, by simp⟩, rfl, ?_⟩
+  rintro ⟨ls, hout, hne, _, hall⟩
+  cases ls with
+  | nil => exact hne rfl
+  | cons l ls' =>
+    have hl := hall l (by simp)
+    simp only [frameText, Pretty.unlines] at hout
+    have h1 : (l ++ '\n' :: Pretty.unlines ls')[l.length]? = some '\n' := by simp
+    rw [← hout] at h1
+    have h2 : ∀ i, i ≤ 5 → ['N', 'o', ' ', 'd', 'a', 't', 'a', '\n'][i]? ≠ some '\n' := by decide
+    exact h2 l.length hl.1 h1
+
+theorem narrowExample_narrow : NarrowTable narrowExample := by
+  simp only [NarrowTable, AllNarrow, NarrowChar]
+  decide
+
+def envW20 : Pretty.Env := { cfg := { minBuf := 4, maxBuf := 8 }, term := some (20, 5) }
+
+/-- non-vacuity of the headline: `C16_table_lines_ok` applied to a concrete run of the printer -/
+example : ∃ out st', Pretty.formatAggregate envW20 {} narrowExample = .ok (out, st') ∧
+    ∃ ls, out = frameText ls ∧ FrameOK 20 4 ls := by
+  have hs : (Pretty.formatAggregate envW20 {} narrowExample).toOption.isSome = true := by decide
+  obtain ⟨o, ho⟩ := Option.isSome_iff_exists.mp hs
+  have hf : ∃ o, Pretty.formatAggregate envW20 {} narrowExample = .ok o := ⟨o, eq_ok_of_toOption ho⟩
+  obtain ⟨⟨out, st'⟩, hf⟩ := hf
+  exact ⟨out, st', hf, C16_table_lines_ok envW20 {} st' narrowExample 20 5 out rfl (by omega) (by decide)
+    narrowExample_narrow (by intro h; cases h) hf⟩
+
 end C16
 end Ag
 
 #print axioms Ag.C16.C16_table_lines_ok
 #print axioms Ag.C16.C16_narrow_tables_screen
+#print axioms Ag.C16.C16_no_data_narrow_counterexample
